@@ -141,6 +141,15 @@ theorem ks_mMoveRows {b b' : Book} {sheet : Nat} {row count delta : Int}
     | (injection h with h; subst h; exact KS.refl _)
     | (injection h with h; subst h; rename_i hs; exact ks_setSheet hs rfl rfl)
 
+theorem ks_mMoveColumns {b b' : Book} {sheet : Nat} {row count delta : Int}
+    (h : mMoveColumns b sheet row count delta = .ok b') : KS b b' := by
+  unfold mMoveColumns at h
+  repeat' split at h
+  all_goals first
+    | (cases h; done)
+    | (injection h with h; subst h; exact KS.refl _)
+    | (injection h with h; subst h; rename_i hs; exact ks_setSheet hs rfl rfl)
+
 theorem ks_ofLoop {b : Book} {l : LoopOut} (h : KS b l.b) : KS b (ofLoop l).w := by
   unfold ofLoop; split <;> exact h
 
@@ -231,6 +240,12 @@ theorem ks_doOp (env : Env) (b : Book) (o : Op) (hk : keepsSheets o = true) :
     · rw [h1]; exact KS.refl b
     · rw [h1]; exact KS.refl b
     · rw [h1]; exact ks_mMoveRows hm
+  | moveColumns s r n d =>
+    simp only [doOp]
+    rcases moveColumns_cases b s r n d with h1 | ⟨e', h1⟩ | ⟨b', nd, hm, h1⟩
+    · rw [h1]; exact KS.refl b
+    · rw [h1]; exact KS.refl b
+    · rw [h1]; exact ks_mMoveColumns hm
 
 end IronCalc.User
 
